@@ -323,6 +323,8 @@ mut('queue-write-drops-when-full', 'ObjectQueue.cpp', [["    /* push data */\n  
     ['C16'], ['Q5|write'], 'an object written while the queue is aborted and full is deleted instead of delivered')
 mut('queue-eof-by-difference', 'ObjectQueue.cpp', [["        (m_tellg >= m_fileSize);", "        ((m_fileSize - m_tellg) == 0);"]],
     ['C16'], ['Q4|read'], 'a declared size below the get count wraps: the reader is never released')
+mut('queue-shift-eof-to-sentinel', 'ObjectQueue.cpp', [["    if (m_tellp > m_fileSize)\n        m_fileSize = m_tellp;", "    if (m_tellp > m_fileSize)\n        m_fileSize = std::numeric_limits<uint32_t>::max();"]],
+    ['C16'], ['Q6|write'], 'a write past the declared end forgets the end: the reader that drained the queue blocks (round-7 seed C16-r7b)')
 # ---- round-5 benign twins turned bad: the generalised rules must still see the difference
 mut('size-guard-helper-too-weak', 'File.cpp', [["void File::uncompressedFile2ReadWriteQueue() {\n    /* identify type */", "/** an object cannot have a negative size */\nstatic bool objectSizeCoversHeader(const ObjectHeaderBase & ohb) {\n    return ohb.objectSize >= 0;\n}\n\nvoid File::uncompressedFile2ReadWriteQueue() {\n    /* identify type */"],
                                             ["    if (ohb.objectSize < ohb.calculateHeaderSize()) {", "    if (!objectSizeCoversHeader(ohb)) {"]],
@@ -437,6 +439,8 @@ ben('close-extract-helpers', 'File.cpp', [["void File::close() {\n    /* check i
 G[-1]['extra_edits'] = [('File.h', [["    std::ios_base::openmode m_openMode {};", "    std::ios_base::openmode m_openMode {};\n\n    /** stop the two read threads (part of close()) */\n    void stopReadSession();"]])]
 ben('queue-eof-atom-negated', 'ObjectQueue.cpp', [["        (m_tellg >= m_fileSize);\n    });\n\n    /* get first entry */", "        !(m_tellg < m_fileSize);\n    });\n\n    /* get first entry */"]],
     ['C16', 'C06', 'C07', 'C08'], 'the end-of-stream atom of the reader written as a negated comparison')
+ben('queue-shift-eof-by-max', 'ObjectQueue.cpp', [["    if (m_tellp > m_fileSize)\n        m_fileSize = m_tellp;", "    m_fileSize = std::max(m_fileSize, m_tellp);"]],
+    ['C16', 'C06', 'C07'], 'the shifted end written as a maximum')
 ben('factory-without-parens', 'File.cpp', [["        obj = new CanErrorFrame();", "        obj = new CanErrorFrame;"]], ['C17', 'C01'])
 ben('compression-branch-inverted', 'File.cpp', [["    if (compressionLevel == 0) {\n        /* no compression */\n        logContainer.compress(0, 0);\n    } else {\n        /* zlib compression */\n        logContainer.compress(2, compressionLevel);\n    }", "    if (compressionLevel != 0) {\n        /* zlib compression */\n        logContainer.compress(2, compressionLevel);\n    } else {\n        /* no compression */\n        logContainer.compress(0, 0);\n    }"]], PIPE)
 
